@@ -39,6 +39,7 @@ import (
 	"math"
 	"math/big"
 	"sort"
+	"strings"
 	"sync"
 
 	"github.com/blinklabs-io/gouroboros/ledger"
@@ -148,7 +149,56 @@ func applyTargeted(name string, l *blockx.Layout) int {
 	return 0
 }
 
+// auxiliary data shapes: the plain metadata map (Shelley), the
+// [metadata, scripts] array (Allegra / Mary) and the tagged map #6.259
+// (Alonzo+). In the last two the metadata bytes are only a part of the
+// auxiliary data.
+var auxShapes = []string{"aux-plain-map", "aux-array", "aux-tag259"}
+
+func auxNode(shape string) *cborx.Node {
+	md := func() *cborx.Node {
+		return cborx.M(cborx.U(1), cborx.S("abc"), cborx.U(674), cborx.M(cborx.S("msg"), cborx.A(cborx.S("c30 auxiliary data"))))
+	}
+	native := func() *cborx.Node { return cborx.A(cborx.A(cborx.U(1), cborx.A())) }
+	switch shape {
+	case "aux-array":
+		return cborx.A(md(), native())
+	case "aux-tag259":
+		return cborx.T(259, cborx.M(cborx.U(0), md(), cborx.U(1), native(), cborx.U(2), cborx.A(cborx.B([]byte{0x4d, 0x01, 0x00, 0x00, 0x33, 0x22, 0x22, 0x20, 0x05, 0x12, 0x00, 0x12, 0x00, 0x11}))))
+	}
+	return md()
+}
+
+// setAux replaces (or adds) the auxiliary data of transaction k of a block.
+func setAux(l *blockx.Layout, k int, aux *cborx.Node) bool {
+	if k < 0 || k >= len(l.Txs) {
+		return false
+	}
+	if w := l.Txs[k].Whole; w != nil { // Dijkstra: [body, wits, aux]
+		if len(w.Items) != 3 {
+			return false
+		}
+		w.Items[2] = aux
+		return true
+	}
+	if !l.Split || l.AuxMap == nil {
+		return false
+	}
+	m := l.AuxMap
+	for i := 0; i+1 < len(m.Items); i += 2 {
+		if m.Items[i].Kind == cborx.Uint && m.Items[i].Arg == uint64(k) {
+			m.Items[i+1] = aux
+			return true
+		}
+	}
+	m.Items = append(m.Items, cborx.U(uint64(k)), aux)
+	return true
+}
+
 func encClass(p policy, changed int) string {
+	if strings.HasPrefix(p.name, "aux-") {
+		return p.name
+	}
 	if p.name == "as-is" || changed == 0 {
 		return "canonical"
 	}
@@ -415,6 +465,16 @@ func ledgergenBases() []base {
 		m := w.Spec.Clone()
 		m.AuxData = cborx.M(cborx.U(674), cborx.M(cborx.S("msg"), cborx.A(cborx.S("c30"))))
 		add(e, "metadata", m)
+		if e >= lg.Allegra {
+			ma := w.Spec.Clone()
+			ma.AuxData = auxNode("aux-array")
+			add(e, "aux-array", ma)
+		}
+		if e >= lg.Alonzo {
+			mt := w.Spec.Clone()
+			mt.AuxData = auxNode("aux-tag259")
+			add(e, "aux-tag259", mt)
+		}
 		if e.HasMultiAsset() {
 			t := w.Spec.Clone()
 			t.Outputs = append(t.Outputs, lg.Output{Addr: w.PayerAddr(), Coin: 2_000_000, MapForm: e >= lg.Babbage, Assets: []lg.Asset{lg.Tok(polA, "tok", 7)}})
@@ -544,6 +604,9 @@ func runBlocks(c *core.Ctx, co *collector) {
 	type job struct {
 		b      corpus.Block
 		pi, vi int
+		aux    string // auxiliary data shape written into one transaction
+		auxNC  bool   // ... in a PRNG non-canonical encoding
+		auxTx  int    // 0 = first, 1 = last transaction of the block
 	}
 	var jobs []job
 	for _, b := range corpus.MustBlocks(c.RepoDir) {
@@ -556,20 +619,33 @@ func runBlocks(c *core.Ctx, co *collector) {
 				n = 1
 			}
 			for vi := 0; vi < n; vi++ {
-				jobs = append(jobs, job{b, pi, vi})
+				jobs = append(jobs, job{b: b, pi: pi, vi: vi})
 			}
 		}
 		for ti := range blockTargeted {
-			jobs = append(jobs, job{b, -1 - ti, 0})
+			jobs = append(jobs, job{b: b, pi: -1 - ti})
+		}
+		for _, shape := range auxShapes {
+			for _, nc := range []bool{false, true} {
+				for sel := 0; sel < 2; sel++ {
+					jobs = append(jobs, job{b: b, pi: -100, aux: shape, auxNC: nc, auxTx: sel})
+				}
+			}
 		}
 	}
 	c.Note("block_encodings", len(jobs))
 	c.Parallel("blocks", len(jobs), 0, func(i int, r *core.Rand) {
 		j := jobs[i]
 		var p policy
-		if j.pi >= 0 {
+		switch {
+		case j.aux != "":
+			p = policy{name: j.aux}
+			if j.auxNC {
+				p.name += "-noncanonical"
+			}
+		case j.pi >= 0:
 			p = policies[j.pi]
-		} else {
+		default:
 			p = policy{name: blockTargeted[-1-j.pi]}
 		}
 		root, err := cborx.ParseExact(j.b.Cbor)
@@ -579,6 +655,32 @@ func runBlocks(c *core.Ctx, co *collector) {
 		}
 		changed := 0
 		switch {
+		case j.aux != "":
+			l0, err := blockx.AnalyzeNode(j.b.Type, j.b.Cbor, root)
+			if err != nil {
+				return
+			}
+			if j.b.Type == corpus.TypeDijkstra && len(l0.Txs) == 0 && l0.DjTxs != nil {
+				// the corpus Dijkstra block is empty: put the corpus transaction in
+				if raw, err := corpus.DijkstraTx(c.RepoDir); err == nil {
+					if n, err := cborx.ParseExact(raw); err == nil && n.Kind == cborx.Array && len(n.Items) == 3 {
+						l0.DjTxs.Items = append(l0.DjTxs.Items, n)
+						l0.Txs = append(l0.Txs, blockx.Tx{Index: 0, Whole: n, Body: n.Items[0], Witness: n.Items[1]})
+					}
+				}
+			}
+			k := 0
+			if j.auxTx == 1 {
+				k = len(l0.Txs) - 1
+			}
+			aux := auxNode(j.aux)
+			if j.auxNC {
+				blockx.Randomize(aux, r, blockx.RandOpts{Containers: true, Ints: true, Strings: true, IndefStrings: true, Num: 1, Den: 2})
+			}
+			if !setAux(l0, k, aux) {
+				return
+			}
+			changed = 1
 		case j.pi < 0:
 			if l0, err := blockx.AnalyzeNode(j.b.Type, j.b.Cbor, root); err == nil {
 				changed = applyTargeted(p.name, l0)
@@ -622,7 +724,7 @@ func runBlocks(c *core.Ctx, co *collector) {
 			fee := fnode.Arg
 			s := &subject{family: "block", era: e, source: fmt.Sprintf("corpus:%s#%d", j.b.Name, k), policy: p.name, enc: enc, tx: txs[k], size: size, origin: y, fee: fee,
 				detail: map[string]any{"variant": j.vi, "nodes_re_encoded": changed, "original_body": core.HexFull(t.Body.Slice(y)), "original_witness_set_len": len(t.Witness.Slice(y)),
-					"library_body_cbor_len": bodyLen(txs[k]), "block_type": j.b.Type, "tx_index": k}}
+					"library_body_cbor_len": bodyLen(txs[k]), "block_type": j.b.Type, "tx_index": k, "original_aux_data": auxHex(t, y)}}
 			judgeMaxSize(c, co, s, size)
 			// b chosen so that min = fee - d
 			for _, a := range []uint64{0, 44, 155381, 1 << 32} {
@@ -648,6 +750,13 @@ func runBlocks(c *core.Ctx, co *collector) {
 			c.Sample(map[string]any{"family": "block", "block": j.b.Name, "policy": p.name, "variant": j.vi, "encoding": enc, "len": len(y), "txs": len(txs)})
 		}
 	})
+}
+
+func auxHex(t blockx.Tx, src []byte) string {
+	if t.Aux == nil {
+		return ""
+	}
+	return core.HexFull(t.Aux.Slice(src))
 }
 
 func bodyLen(tx common.Transaction) int {
